@@ -30,10 +30,30 @@ def values_fn(kind):
     return f
 
 
+# categorical text values of the configurations (some are what CSV readers take for "missing")
+TAGS = ["l2", "None", "relu", "NA", "a b", "null"]
+
+
+def tag_of(x):
+    return TAGS[x % len(TAGS)] if isinstance(x, int) and x >= 0 else None
+
+
+def tag_token(v):
+    return TAGS.index(v) if isinstance(v, str) and v in TAGS else -1
+
+
 class ModeScheduler(D.ScriptedScheduler):
     def __init__(self, script, kind, mode):
         super().__init__(script, kind)
         self._mode = mode
+        from syne_tune.config_space import choice
+        self.config_space["tag"] = choice(TAGS)
+
+    def _suggest(self, trial_id):
+        s = super()._suggest(trial_id)
+        if s is not None and s.config is not None:
+            s.config["tag"] = tag_of(s.config.get("x"))
+        return s
 
     def metric_mode(self):
         return self._mode
@@ -61,11 +81,12 @@ def one_run(hist, conf, mode, vkind, interval):
             for (t, r, i) in e["res"]:
                 ev.append({"a": "Handed", "t": t, "v": tok(vals(t, r, i))})
         elif e["a"] == "Result":
-            ev.append({"a": "Deliver", "t": e["t"], "v": tok(vals(e["t"], e["r"], e["i"])), "d": e["d"]})
+            ev.append({"a": "Deliver", "t": e["t"], "v": tok(vals(e["t"], e["r"], e["i"])), "d": e["d"],
+                       "c": tag_token(tag_of(e.get("cfgx", -1)))})
     end = run["ev"][-1]
     path = experiment_path(tuner_name=tuner.name)
     try:
-        rows = [[int(r["trial_id"]), tok(r["m"]), r["st_decision"]] for r in store.results]
+        rows = [[int(r["trial_id"]), tok(r["m"]), r["st_decision"], tag_token(r.get("config_tag"))] for r in store.results]
         # every row carries the full configuration of its trial AT THE TIME of the result (a resumed trial may have a new one)
         cfgok = len(cfgx) == len(store.results) and all(
             r.get("config_x") == cx and r.get("config_epochs") == 99 and "st_tuner_time" in r and "st_status" in r
@@ -73,13 +94,15 @@ def one_run(hist, conf, mode, vkind, interval):
         rowsback, bestL = rows, -2
         csv = os.path.join(str(path), "results.csv.zip")
         if os.path.exists(csv) and rows:
-            df = pd.read_csv(csv)
-            rowsback = [[int(a), tok(float(b)), str(c_)] for a, b, c_ in zip(df["trial_id"], df["m"], df["st_decision"])]
-            cfgok = cfgok and len(df) == len(cfgx) and all(int(a) == int(b) for a, b in zip(df["config_x"], cfgx))
             try:
                 from syne_tune.experiments import load_experiment
-                # metadata.json is written by the tuner; the loaded experiment ranks the rows of the table
+                # metadata.json is written by the tuner; the loaded experiment reads the table (the library's reader) and
+                # ranks its rows
                 exp = load_experiment(tuner.name, download_if_not_found=False, load_tuner=False)
+                df = exp.results
+                rowsback = [[int(a), tok(float(b)), str(c_), tag_token(g)]
+                            for a, b, c_, g in zip(df["trial_id"], df["m"], df["st_decision"], df["config_tag"])]
+                cfgok = cfgok and len(df) == len(cfgx) and all(int(a) == int(b) for a, b in zip(df["config_x"], cfgx))
                 bc = exp.best_config() if len(exp.results) > 0 and not exp.results["m"].isna().all() else None
                 bestL = -2 if bc is None else int(bc["trial_id"]) if "trial_id" in bc else int(bc["config_x"])
             except Exception as exc:   # the code under test raised
